@@ -20,6 +20,7 @@ import numpy as np
 
 HERE = os.path.dirname(os.path.abspath(__file__))
 sys.path.insert(0, os.path.join(HERE, '..', 'C01'))
+sys.path.insert(0, HERE)
 import specgen as sg  # noqa: E402
 import ombuild as ob  # noqa: E402
 from openmdao.api import AnalysisError  # noqa: E402
@@ -143,7 +144,10 @@ def main():
         cases = json.load(open(sys.argv[2]))
         json.dump(run_all(cases, False), open(sys.argv[3], 'w'))
         return
-    cases = json.load(open(sys.argv[1]))
+    allcases = json.load(open(sys.argv[1]))
+    # the pre / iterated / post cases are self-contained (props/C24/ppp.py); the others need the second process
+    ppp_idx = [k for k, c in enumerate(allcases) if c['spec'].get('ppp')]
+    cases = [c for c in allcases if not c['spec'].get('ppp')]
     on = run_all(cases, True)
     # relevance disabled: fresh interpreter, OPENMDAO_NO_RELEVANCE is read at import time
     tmp = tempfile.mkdtemp(prefix='c24_')
@@ -197,6 +201,20 @@ def main():
                                  what, 'exact' if exact else 'tol 1e-9', why, c['cfg']))
             r['res'] = [a['D'], a['A']]
         res.append(r)
+    if ppp_idx:
+        import ppp
+        full = []
+        it = iter(res)
+        for k, c in enumerate(allcases):
+            if c['spec'].get('ppp'):
+                try:
+                    full.append(ppp.handle(c))
+                except Exception:
+                    full.append({'res': '__none__', 'ok': False, 'sig': 'harness-exception',
+                                 'msg': traceback.format_exc()[-1500:], 'kind': c.get('kind', 'ppp')})
+            else:
+                full.append(next(it))
+        res = full
     json.dump(res, open(sys.argv[2], 'w'))
 
 
